@@ -310,7 +310,7 @@ func runC24(c *C) {
 	for _, in := range c.ReplayInputs() {
 		replayC24(c, rs, in)
 	}
-	n := c.N(30, 1500)
+	n := c.N(24, 1500)
 	for _, r := range rs {
 		for i := 0; i < n && !c.Failed(); i++ {
 			m := r.MT.New()
